@@ -56,6 +56,9 @@ Fixpoint views_ok (s : store) (vs : list (list (string * nat))) : bool :=
 Inductive kstep :=
 | KAttr (v : version) (user : string) (uid : option Z) (r : areq) (obs : string) (post : store)
         (views : list (list (string * nat)))
+| KAttrSame (v : version) (user : string) (uid : option Z) (r : areq) (obs : string)
+    (* the observed database is byte-identical before and after: the observation equals the previous one, which the
+       replay has already shown equal to the model state *)
 | KOther (post : store).
 
 Fixpoint replay (s : store) (h : list kstep) : bool :=
@@ -65,6 +68,9 @@ Fixpoint replay (s : store) (h : list kstep) : bool :=
   | KAttr v user uid r obs post views :: t =>
     let (s', out) := step v user s uid r in
     outcome_matches out obs && store_eqb s' post && views_ok s' views && replay s' t
+  | KAttrSame v user uid r obs :: t =>
+    let (s', out) := step v user s uid r in
+    outcome_matches out obs && store_eqb s' s && replay s' t
   end.
 
 Definition kcase := (store * list kstep)%type.
@@ -78,6 +84,9 @@ Fixpoint first_bad (s : store) (h : list kstep) (k : nat) : option nat :=
   | KAttr v user uid r obs post views :: t =>
     let (s', out) := step v user s uid r in
     if outcome_matches out obs && store_eqb s' post && views_ok s' views then first_bad s' t (S k) else Some k
+  | KAttrSame v user uid r obs :: t =>
+    let (s', out) := step v user s uid r in
+    if outcome_matches out obs && store_eqb s' s then first_bad s' t (S k) else Some k
   end.
 Definition model_step_out (c : kcase) (k : nat) : option (store * outcome) :=
   (fix go (s : store) (h : list kstep) (k : nat) :=
@@ -85,5 +94,7 @@ Definition model_step_out (c : kcase) (k : nat) : option (store * outcome) :=
      | [] => None
      | KOther post :: t => match k with O => None | S k' => go post t k' end
      | KAttr v user uid r obs post views :: t =>
+       match k with O => Some (step v user s uid r) | S k' => go (fst (step v user s uid r)) t k' end
+     | KAttrSame v user uid r obs :: t =>
        match k with O => Some (step v user s uid r) | S k' => go (fst (step v user s uid r)) t k' end
      end) (fst c) (snd c) k.
